@@ -327,6 +327,26 @@ func countCases(big bool) []ccase {
 					emit(fmt.Sprintf("%s/all=%d", d0, val), m, v.nest)
 				}
 			}
+			// boundary values of the size guards: counts just below / above (payload - d) / e
+			for _, f := range v.fields {
+				if f.width != 4 {
+					continue
+				}
+				L := len(v.bytes)
+				for _, e := range []int{1, 2, 4, 8} {
+					for _, d := range []int{0, 8} {
+						for _, plus := range []int{0, 1} {
+							val := (L-16-d)/e + plus
+							if val < 0 {
+								continue
+							}
+							m := putField(v.bytes, f, uint64(val))
+							emit(fmt.Sprintf("%s/%s~%d", d0, f.what, val), m, v.nest)
+							emit(fmt.Sprintf("%s/%s~%d/large", d0, f.what, val), toLarge(m), v.nest)
+						}
+					}
+				}
+			}
 			for _, f := range v.fields {
 				cur := 0
 				for i := 0; i < f.width && f.off+i < len(v.bytes); i++ {
